@@ -43,6 +43,16 @@ def rowEval (z y : K) (row : List Mono) : K := rowSum z y row / Scalar.sqrt Scal
 def legendreGrid (tab : Table) (N j i : Nat) : K :=
   rowEval (Scalar.cos (S2Grid.betas N j : K)) (Scalar.abs (Scalar.sin (S2Grid.betas N j : K))) (tab.getD i [])
 
+/-- `spherical_harmonics_alpha_beta(range(lmax+1), α, β, normalization)[l² + k]`
+(`SphericalHarmonicsAlphaBeta.forward`: `Legendre(cos β, sin β)` — the signed sine — times `spherical_harmonics_alpha`,
+then the per-normalisation factor) -/
+def shAlphaBeta (tab : Table) (kind : S2Grid.Norm) (l k : Nat) (α β : K) : K :=
+  let v : K := S2Grid.shaEntry l α k * rowEval (Scalar.cos β) (Scalar.sin β) (tab.getD (l ^ 2 + k) [])
+  match kind with
+  | .integral => v
+  | .component => v * Scalar.sqrt (Scalar.ofNat 4 * Scalar.pi)
+  | .norm => v / (Scalar.sqrt (Scalar.ofNat (2 * l + 1)) / Scalar.sqrt (Scalar.ofNat 4 * Scalar.pi))
+
 end Eval
 
 /-! ### kernel-computable orthonormality check
